@@ -171,7 +171,18 @@ package ocidir
 //@   in ~/scheme/ocidir
 //@   infunc \)\.closeProcManifest$
 //@   requires walks-the-fetched-child: $fetched && m == caller.cm && dl == caller.dl
-// Lock accounting
+// Lock accounting. Frame: the lock counter is written only by GCLock/GCUnlock, and the table of
+// per-layout GC states only by GCLock, refMod and Close, each of which keeps every entry that
+// holds a lock (locked-entries-kept).
+//@ writers F|~/scheme/ocidir.ociGC|locks
+//@   prop C08
+//@   allow (*OCIDir).GCLock, (*OCIDir).GCUnlock
+//@ writers M|map[string]*~/scheme/ocidir.ociGC
+//@   prop C08
+//@   allow (*OCIDir).GCLock, (*OCIDir).refMod, (*OCIDir).Close
+//@ func (*OCIDir).{Close,refMod}
+//@   prop C08
+//@   ensures locked-entries-kept: forall(p, string, old($has(o.modRefs, p) && o.modRefs[p] != nil && o.modRefs[p].locks > 0) ==> $has(o.modRefs, p) && o.modRefs[p] == old(o.modRefs[p]) && o.modRefs[p].locks == old(o.modRefs[p].locks))
 //@ func (*OCIDir).GCLock(r)
 //@   prop C08
 //@   let had = $has(o.modRefs, r.Path) && o.modRefs[r.Path] != nil
